@@ -3,7 +3,7 @@
 cd "$(dirname "$0")/.." || exit 2
 export GOFLAGS=-mod=mod GOPROXY=off GOSUMDB=off GOTOOLCHAIN=local; unset GOWORK
 rc=0
-for P in refactors/*.patch refactors/agents/*.patch; do
+for P in refactors/*.patch refactors/agents/*.patch refactors/agents2/*.patch; do
   [ -n "${1:-}" ] && ! echo "$P" | grep -q "$1" && continue
   WT="$(mktemp -d /tmp/vr.XXXXXX)"; EV="$(mktemp -d /tmp/vrev.XXXXXX)"
   git -C /repo worktree add -q --detach "$WT" HEAD
